@@ -18,10 +18,12 @@ def classify(op, impl):
 
 def run_ms(ctx, kind):
     """kind: 'wait' (C05) or 'hold' (C06)"""
-    prefixes = {"wait": ["C05:"], "hold": ["C06:"], "both": ["C05:", "C06:"], "wait-c03": ["C03:"]}[kind]
-    c03 = kind == "wait-c03"
-    if c03:
+    prefixes = {"wait": ["C05:"], "hold": ["C06:"], "both": ["C05:", "C06:"], "wait-c03": ["C03:"], "both-c17": ["C17:"]}[kind]
+    c03 = kind in ("wait-c03", "both-c17")      # these run the msw mode only (no real-time probes)
+    if kind == "wait-c03":
         kind = "wait"
+    if kind == "both-c17":
+        kind = "both"
     if ctx.lake_build(["Slock.Properties.C05Ms"], exe=True):
         ctx.audit("Slock.Properties.C05Ms", MS_THEOREMS)
     exe = ctx.build_harness("server", only=MS_FILES)
